@@ -161,6 +161,14 @@ def fee_eq(dom, a, b):
     try: return dom.eq(a, b)
     except Exception: return False
 
+def zero_pull(f, v):
+    """the escrow pull refuses amount == 0 (in any spelling): the amount is the validated size / quote_size (+ fee)"""
+    sf = sign_of_fact(f) if f is not None else None
+    if sf is None or sf[1] != 'zero': return False
+    x = sf[0]
+    if x in (M(v, 'size'), M(v, 'quote_size')): return True
+    return x[0] == 'add' and (M(v, 'quote_size') in x[1:] or M(v, 'size') in x[1:])
+
 def refusal_tables(v):
     side = 'ask' if v == 'CreateAsk' else 'bid'
     d = DEC(M(v, 'price'))
@@ -191,10 +199,7 @@ def refusal_tables(v):
         ('storage', 'I', lambda e: is_save_err(e['fact']) or is_storage_load_err(e['fact'], side)),
         ('funds-attached-for-restricted', 'L', lambda e: isf(e, ('val', ISEMPTY(FUNDS), False))),
         ('funds-not-exact', 'L', lambda e: e['fact'] is not None and e['fact'][0] == 'val' and e['fact'][2] is False and e['fact'][1][0] == 'eq' and FUNDS in e['fact'][1][1:]),
-        ('zero-amount-pull', 'D(validate: size, quote_size >= 1; unsigned sum)', lambda e: e['fact'] is not None and e['fact'][0] == 'val' and e['fact'][2] is True and e['fact'][1][0] == 'eq' and I(0) in e['fact'][1][1:]
-            and any(x in repr(e['fact']) for x in ("'quote_size'", "'size'")) and e['site'] and 'util.rs' in e['site'] or
-            (e['fact'] is not None and e['fact'][0] == 'val' and e['fact'][2] is True and e['fact'][1][0] == 'eq' and I(0) in e['fact'][1][1:] and e['fact'][1][1:] and
-             any(t[0] == 'add' and M(v, 'quote_size') in t[1:] for t in e['fact'][1][1:]))),
+        ('zero-amount-pull', 'D(validate: size, quote_size >= 1; unsigned sum)', lambda e: zero_pull(e['fact'], v)),
         ('class-serialisation', 'I', lambda e: e['fact'] is not None and e['fact'][0] == 'is' and e['fact'][2] == 'Err' and e['fact'][1][0] == 'call' and 'serde_json::to_string' in e['fact'][1][1]),
     ]
     if v == 'CreateAsk':
